@@ -15,6 +15,25 @@ import (
 // meaning inside a connector update is not described anywhere.
 var connFlags = []string{`\Seen`, `\Flagged`, `\Answered`, `\Draft`, `kw1`, `$kw2`}
 
+// uni draws uniformly from [0, n): rapid's integer generators strongly favour small values (geometric bit length), which
+// would starve the later alternatives of every choice; single bits are uniform (and shrink towards 0).
+func uni(t *rapid.T, label string, n int) int {
+	bits := 2
+	for 1<<(bits-2) < n {
+		bits++
+	}
+
+	v := 0
+
+	for i := 0; i < bits; i++ {
+		if rapid.Bool().Draw(t, label) {
+			v |= 1 << i
+		}
+	}
+
+	return v % n
+}
+
 type gen struct {
 	nBox, nMsg, nName, nMark, nBogus int
 }
@@ -35,7 +54,7 @@ func (g *gen) bogusMsg() imap.MessageID {
 func (g *gen) name(t *rapid.T, m *model) string {
 	g.nName++
 
-	switch v := rapid.IntRange(0, 9).Draw(t, "nameShape"); {
+	switch v := uni(t, "nameShape", 10); {
 	case v <= 6:
 		return fmt.Sprintf("b%d", g.nName)
 	case v <= 8:
@@ -46,11 +65,11 @@ func (g *gen) name(t *rapid.T, m *model) string {
 }
 
 func pickBox(t *rapid.T, bs []*mbox) *mbox {
-	return bs[rapid.IntRange(0, len(bs)-1).Draw(t, "box")]
+	return bs[uni(t, "box", len(bs))]
 }
 
 func pickMsg(t *rapid.T, xs []*mmsg) *mmsg {
-	return xs[rapid.IntRange(0, len(xs)-1).Draw(t, "msg")]
+	return xs[uni(t, "msg", len(xs))]
 }
 
 func nonInbox(m *model) []*mbox {
@@ -66,7 +85,7 @@ func nonInbox(m *model) []*mbox {
 }
 
 func drawFlags(t *rapid.T) []string {
-	mask := rapid.IntRange(0, 1<<len(connFlags)-1).Draw(t, "flags")
+	mask := uni(t, "flags", 1<<len(connFlags))
 
 	var r []string
 
@@ -82,12 +101,12 @@ func drawFlags(t *rapid.T) []string {
 // drawBoxes picks up to max distinct live mailboxes.
 func drawBoxes(t *rapid.T, m *model, max int) []imap.MailboxID {
 	pool := append([]*mbox(nil), m.boxes...)
-	n := rapid.IntRange(0, max).Draw(t, "nBoxes")
+	n := uni(t, "nBoxes", max+1)
 
 	var r []imap.MailboxID
 
 	for i := 0; i < n && len(pool) > 0; i++ {
-		j := rapid.IntRange(0, len(pool)-1).Draw(t, "box")
+		j := uni(t, "box", len(pool))
 		r = append(r, pool[j].rid)
 		pool = append(pool[:j], pool[j+1:]...)
 	}
@@ -108,7 +127,7 @@ func ridsOf(bs []*mbox) []imap.MailboxID {
 func (g *gen) target(t *rapid.T, m *model) (imap.MessageID, *mmsg) {
 	live, retired := m.liveMsgs(), m.retiredMsgs()
 
-	switch v := rapid.IntRange(0, 9).Draw(t, "target"); {
+	switch v := uni(t, "target", 10); {
 	case v <= 7 && len(live) > 0:
 		x := pickMsg(t, live)
 		return x.rid, x
@@ -123,7 +142,7 @@ func (g *gen) target(t *rapid.T, m *model) (imap.MessageID, *mmsg) {
 // boxList draws the mailbox list of a message update: valid lists, the current memberships, lists with an unknown or
 // the protected id, and (dups allowed) lists naming a mailbox twice.
 func (g *gen) boxList(t *rapid.T, m *model, x *mmsg, dups bool) []imap.MailboxID {
-	switch v := rapid.IntRange(0, 11).Draw(t, "boxList"); {
+	switch v := uni(t, "boxList", 12); {
 	case v <= 6:
 		return drawBoxes(t, m, 3)
 	case v == 7 && x != nil:
@@ -147,7 +166,7 @@ func (g *gen) boxList(t *rapid.T, m *model, x *mmsg, dups bool) []imap.MailboxID
 func (g *gen) update(t *rapid.T, e *env, kind string) *desc {
 	m := e.m
 	d := e.newDesc(kind)
-	v := rapid.IntRange(0, 9).Draw(t, "variant")
+	v := uni(t, "variant", 10)
 
 	switch kind {
 	case kMailboxCreated:
@@ -162,7 +181,7 @@ func (g *gen) update(t *rapid.T, e *env, kind string) *desc {
 		case v == 8:
 			d.boxRID, d.name = g.boxRID(), pickBox(t, m.boxes).name
 
-			if rapid.IntRange(0, 3).Draw(t, "recoveryName") == 0 {
+			if uni(t, "recoveryName", 4) == 0 {
 				d.name = recoveryName
 			}
 		case v == 9 && len(gone) > 0:
@@ -238,7 +257,7 @@ func (g *gen) update(t *rapid.T, e *env, kind string) *desc {
 		rid, x := g.target(t, m)
 		d.msgRID, d.flags = rid, drawFlags(t)
 
-		if x != nil && rapid.IntRange(0, 3).Draw(t, "sameFlags") == 0 {
+		if x != nil && uni(t, "sameFlags", 4) == 0 {
 			d.flags = flagList(x.flags)
 		}
 
@@ -287,7 +306,7 @@ func (g *gen) update(t *rapid.T, e *env, kind string) *desc {
 				d.literal = mach.Msg(d.marker, "replaced")
 			}
 
-			if rapid.IntRange(0, 2).Draw(t, "sameFlags") == 0 {
+			if uni(t, "sameFlags", 3) == 0 {
 				d.flags = flagList(x.flags)
 			}
 
@@ -307,10 +326,10 @@ func (g *gen) update(t *rapid.T, e *env, kind string) *desc {
 func (g *gen) batch(t *rapid.T, m *model) []item {
 	var n int
 
-	switch sc := rapid.IntRange(0, 99).Draw(t, "sizeClass"); {
+	switch sc := uni(t, "sizeClass", 100); {
 	case sc == 50:
 		n = 0
-	case sc == 51 || sc == 52:
+	case sc == 51:
 		n = rapid.IntRange(900, 1200).Draw(t, "bigN")
 	case sc >= 85:
 		n = rapid.IntRange(5, 40).Draw(t, "midN")
@@ -359,7 +378,7 @@ func (g *gen) batch(t *rapid.T, m *model) []item {
 	for i := 0; i < n; i++ {
 		var it item
 
-		switch r := rapid.IntRange(0, 9).Draw(t, "itemKind"); {
+		switch r := uni(t, "itemKind", 10); {
 		case r >= 8 && len(items) > 0:
 			it = items[rapid.IntRange(0, len(items)-1).Draw(t, "repeatOf")]
 			it.flags = drawFlags(t)
@@ -373,7 +392,7 @@ func (g *gen) batch(t *rapid.T, m *model) []item {
 
 		it.boxes = drawBoxes(t, m, 3)
 
-		switch rapid.IntRange(0, 19).Draw(t, "badBox") {
+		switch uni(t, "badBox", 20) {
 		case 0:
 			it.boxes = append(it.boxes, g.bogusBox())
 		case 1:
@@ -392,7 +411,7 @@ func (g *gen) command(t *rapid.T, e *env) *cmd {
 	c := &cmd{boxKey: -1, dstKey: -1, msgKey: -1}
 
 	ops := []string{"append", "append", "append", "store", "store", "store", "markdel", "delexp", "delexp", "copy", "copy", "move", "move", "create", "rename", "delete", "select", "noop"}
-	c.op = ops[rapid.IntRange(0, len(ops)-1).Draw(t, "cmd")]
+	c.op = ops[uni(t, "cmd", len(ops))]
 
 	var filled []*mbox
 
